@@ -87,6 +87,8 @@ Case genC18(Choices &c, int tier) {
   cs.par["la"] = c.upto(2);
   static const int ns[] = {1000, 2000, 4000, 8000, 16000, 32000, 64000, 128000, 256000};
   cs.par["n"] = ns[c.upto(tier ? 8 : 5)];
+  // quick tier: a few cases at 64k and 128k tokens (containers beyond 128 KB, tables beyond their initial sizes)
+  if (!tier && c.chance(6)) cs.par["n"] = ns[6 + c.upto(1)];
   // a pool of fragments; the inputs of length ~n and ~2n are concatenations of them
   int nf = c.range(2, 6);
   for (int i = 0; i < nf; i++) {
@@ -259,7 +261,7 @@ extern const PropDef g_props_perf[] = {
     {"C18", genC18, runC18,
      "deterministic left-recursive families (comma list; E/T/F expressions with unary minus and parentheses; statements with while-blocks and "
      "expressions; precedence chains of 2-16 left-recursive levels as in the expression part of a C grammar; 10%: the ANSI C grammar of the repository's test41 on "
-     "windows of the 75898-token stream of the repository's test/test.i cut at external declarations, doubled by repeating the window) x lookahead{0,1,2} x n in {1k..32k} (thorough ..256k) x random fragment pools recombined pseudo-randomly into inputs of n and 2n "
+     "windows of the 75898-token stream of the repository's test/test.i cut at external declarations, doubled by repeating the window) x lookahead{0,1,2} x n in {1k..32k, 6 % 64k/128k} (thorough ..256k) x random fragment pools recombined pseudo-randomly into inputs of n and 2n "
      "tokens; work units measured inside yaep_parse: bytes requested from the allocator (redirected malloc), hash-table searches and collisions "
      "(the library's own counters through hook H4), distinct sets, goto-cache hits; oracle (constant part W(64) removed): searches and bytes grow <= 2.2x "
      "the token ratio plus a fixed slack (hash tables and arrays grow in 1.5x steps and rehash: calibrated worst case 1.77x), <= 14 (+1 per chain level; ANSI C 50) searches and <= 600 (+60 per chain level; ANSI C 3000) bytes per token, <= 2 collisions per search, distinct set cores do not grow with n (precedence chains: stay below a quarter of the positions), at most one "
